@@ -346,6 +346,9 @@ frag_rt!(o12_6_fragment_roundtrip_len0, 0);
 frag_rt!(o12_6_fragment_roundtrip_len1, 1);
 frag_rt!(o12_6_fragment_roundtrip_len2, 2);
 
+// (a Kani harness for the version-edit codec ran into the 600 s limit: HashSet hashing with a nondeterministic RandomState; the codec is
+// checked by Engine B over a token stream instead, obligation O10.8)
+
 macro_rules! log_corrupt {
     ($name:ident, $k:expr) => {
         #[kani::proof]
